@@ -36,6 +36,9 @@ type hookCase struct {
 	Terminal string `json:"terminal"`
 	// CustomParse: observe parser entry directly (network clients via NewClient)
 	CustomParse bool `json:"custom_parse"`
+	// Extra: this many further bytes follow the reply on the transport (an oversized reply: the call ends with the too-long error, the
+	// hooks must still see every read exactly). Deliver/Cuts then count over reply+extra.
+	Extra int `json:"extra,omitempty"`
 }
 
 func scenario(c hookCase) (cli.Scenario, []byte, error) {
@@ -47,6 +50,9 @@ func scenario(c hookCase) (cli.Scenario, []byte, error) {
 	d := device.New(c.DevSeed)
 	d.ForceException = c.ExcCode
 	reply := d.Answer(f, q.Bytes())
+	if c.Extra > 0 {
+		reply = append(reply, harness.Bytes(c.DevSeed^0xE, c.Extra)...)
+	}
 	n := c.Deliver
 	if n > len(reply) || n < 0 {
 		n = len(reply)
@@ -119,6 +125,16 @@ func runHook(c hookCase) harness.Result {
 		return harness.Fail("call did not return")
 	}
 	labels := []string{"kind:" + c.Kind, fmt.Sprintf("fc%d", c.Req.FC), "terminal:" + c.Terminal}
+	if c.Extra > 0 {
+		labels = append(labels, "oversized-reply")
+		tot := 0
+		for _, r := range o.Reads {
+			if tot <= spec.MaxADU(cli.FramingOf(c.Kind)) && tot+r.N > spec.MaxADU(cli.FramingOf(c.Kind)) && tot > 0 {
+				labels = append(labels, "read-crossing-the-frame-limit")
+			}
+			tot += r.N
+		}
+	}
 	// outcome equivalence
 	if a, b := outcomeText(plain), outcomeText(o); a != b {
 		return harness.Fail("installing hooks changed the outcome:\n  without hooks: %s\n  with hooks:    %s", a, b)
@@ -227,10 +243,19 @@ func genHook(t *rapid.T, kinds []string) hookCase {
 	}
 	L := len(reply)
 	c.Deliver = L
-	if rapid.IntRange(0, 3).Draw(t, "short") == 0 {
+	oversized := rapid.IntRange(0, 5).Draw(t, "oversized") == 0
+	if oversized {
+		// the bytes before the cut stay below every expected length, so the read after it crosses the frame limit
+		c.Extra = spec.MaxADU(cli.FramingOf(c.Kind)) + rapid.IntRange(1, 14).Draw(t, "over_by") - L
+		c.Deliver = L + c.Extra
+		if k := rapid.IntRange(0, 4).Draw(t, "first_chunk"); k > 0 && k < L {
+			c.Cuts = []int{k}
+			c.Gaps = []int{rapid.IntRange(0, 1).Draw(t, "gap0"), rapid.IntRange(0, 2).Draw(t, "gap1"), 0}
+		}
+	} else if rapid.IntRange(0, 3).Draw(t, "short") == 0 {
 		c.Deliver = rapid.IntRange(0, L).Draw(t, "deliver")
 	}
-	if c.Deliver > 1 {
+	if c.Deliver > 1 && !oversized {
 		chunks := gen.CutSet(t, "cuts", c.Deliver)
 		pos := 0
 		for _, k := range chunks[:len(chunks)-1] {
